@@ -766,13 +766,17 @@ func (n *AlertNode) runAlert([]byte) error {
 }
 
 func (n *AlertNode) NewGroup(group edge.GroupInfo, first edge.PointMeta) (edge.Receiver, error) {
+	var state *alertState
 	id, err := n.renderID(first.Name(), first.GroupID(), first.Tags())
 	if err != nil {
-		return nil, err
+		// The ID template may fail on the tags of this one point: the group starts without a restored state,
+		// the task goes on.
+		n.incrementErrorCount()
+		n.diag.Error("failed to render alert ID", err)
+		state = n.newAlertState(group.Tags)
+	} else {
+		state = n.restoreEventState(id, first.Time(), group.Tags)
 	}
-	t := first.Time()
-
-	state := n.restoreEventState(id, t, group.Tags)
 
 	return edge.NewReceiverFromForwardReceiverWithStats(
 		n.outs,
@@ -1052,7 +1056,10 @@ func (a *alertState) BufferedBatch(b edge.BufferedBatchMessage) (edge.Message, e
 	begin := b.Begin()
 	id, err := a.n.renderID(begin.Name(), begin.GroupID(), begin.Tags())
 	if err != nil {
-		return nil, err
+		// An ID template that fails on the tags of one batch must not end the task.
+		a.n.incrementErrorCount()
+		a.n.diag.Error("failed to render alert ID", err)
+		return nil, nil
 	}
 	if len(b.Points()) == 0 {
 		return nil, nil
@@ -1144,7 +1151,10 @@ func (a *alertState) BufferedBatch(b edge.BufferedBatchMessage) (edge.Message, e
 func (a *alertState) Point(p edge.PointMessage) (edge.Message, error) {
 	id, err := a.n.renderID(p.Name(), p.GroupID(), p.Tags())
 	if err != nil {
-		return nil, err
+		// An ID template that fails on the tags of one point must not end the task.
+		a.n.incrementErrorCount()
+		a.n.diag.Error("failed to render alert ID", err)
+		return nil, nil
 	}
 	l := a.determineLevel(p, a.currentLevel())
 
